@@ -112,6 +112,10 @@ class Den:
         cp = {"year": lambda: p.this_year, "month": lambda: p.first_month, "day": lambda: p.first_day,
               "week": lambda: p.first_week, "weekday": lambda: p.first_weekday}[var["unit"]]()
         den = rules.divide_denominator(self.sys, v, pj)
+        if den is None:
+            # the period API cannot count the requested unit in the definition period
+            # (a cross-family cell such as months in a week): refused before any evaluation
+            raise DenErr("EValue")
         return self.value(v, period_json(cp)), den
 
     # ---- expressions ------------------------------------------------------------------
